@@ -29,9 +29,13 @@ Events (plain data, valid in a rebuilt world):
 Canonical state (KsWorld.canon): the USE future (done, exception type, retries, connection), session.keyspace, per
 pool (host, class, shut down, _keyspace, connection ids, _is_replacing / open_count / _scheduled_for_creation, trash
 size), per host (up, reconnecting), per connection (id, host, in_flight, closed, defunct, driver-side and server-side
-keyspace, outstanding streams), held requests, scheduled tasks, timers, queued task labels, and the oracle memory.
+keyspace, outstanding streams, marked for replacement, orphaned streams), held requests, scheduled tasks, timers, queued
+task labels, and the oracle memory (of the current switch, plus its index, the number of 'orphan' events and the
+reported outcomes of the earlier switches; those were judged in the states before the next one was issued and
+otherwise live on only in the driver state above).
 Which pools have already called back is a function of (pool situations at the switch, USEs answered), both part of
-the oracle memory.  checks/c20.py compares dedup against no-dedup runs in the thorough tier.
+the oracle memory.  checks/c20.py compares dedup against no-dedup runs in the thorough tier (also for a two-switch
+configuration).
 """
 import gc
 
@@ -376,9 +380,10 @@ class KsWorld(object):
         timers = tuple(round(t.end - now, 6) for t in self.w.live_timers())
         tasks = tuple(t[4] for t in self.w.tasks)
         # earlier switches have been judged in earlier states; nothing of them but the driver state above lives on
+        # (their reported outcomes are kept because the observed-outcome keys of the evidence name them)
         memory = (tuple(sorted((a, tuple(sorted(k))) for a, k in self.failed.items())), tuple(sorted(self.answered)),
                   self.n_defunct, tuple(sorted(self.situation.items())) if self.situation else None,
-                  self.cur, self.n_orphan)
+                  self.cur, self.n_orphan, tuple(o for _, o in self.earlier))
         return (fut, self.session.keyspace, tuple(pools), hosts, conns, pend, sched, timers, tasks, memory)
 
 
